@@ -230,7 +230,7 @@ func Random(w *vt.W, seed int64, n int, big bool) {
 		}
 		s, marks := genSeq(rng, l, k)
 		pl := randomPlan(rng, s, k, marks)
-		if i%40 == 7 && k <= 6 { // all 4^k words one by one
+		if i%40 == 7 && k <= 6 && l <= 400 { // all 4^k words one by one
 			for km := 0; km < pow4(k); km++ {
 				pl.kmers = append(pl.kmers, km)
 			}
